@@ -168,6 +168,106 @@ def case_contract(ctx, inp):
         ctx.branch("multi-block")
 
 
+def case_einsumblocks(ctx, inp):
+    """Function level for einsum: the blockwise intermediate dask builds (captured on its way to the final `.sum`) holds
+    one partial contraction per block of the contracted index space; it is compared entry by entry with NumPy's einsum
+    restricted to that block, its sum with the result, and — integer operands — the total of one output cell with the Lean
+    `blockSumOver` over dask's unified chunks of the contracted indices (theorem einsum_blocks: = the full contraction)."""
+    da = _da()
+    import dask.array.einsumfuncs as E
+    ops = [arr(o) for o in inp["ops"]]
+    xs = [da.from_array(o, chunks=tuple(tuple(c) for c in ch)) for o, ch in zip(ops, inp["chunks"])]
+    sub = inp["subscripts"]
+    ins, _, out = sub.partition("->")
+    terms = ins.split(",")
+    if "->" not in sub:
+        letters = "".join(terms)
+        out = "".join(sorted(ch for ch in set(letters) if letters.count(ch) == 1))
+    contr = sorted(set("".join(terms)) - set(out))
+    captured = {}
+    orig = E.blockwise
+
+    def recording(*a, **k):
+        r = orig(*a, **k)
+        captured["inter"] = r
+        captured["index"] = a[1]
+        return r
+    E.blockwise = recording
+    try:
+        res = da.einsum(sub, *xs)
+    finally:
+        E.blockwise = orig
+    val = np.asarray(U.sync_compute(res))
+    ref = np.einsum(sub, *ops)
+    exact = all(o.dtype.kind in "iub" for o in ops)
+    scale = 1.0
+    for o in ops:
+        scale *= max(1.0, U.fsum_abs(o))
+    same = lambda g, e: U.same_values(g, e, exact, scale)     # noqa: E731
+    if not same(val, ref):
+        ctx.fail(f"einsum {sub} differs from NumPy", observed=val.tolist(), expected=ref.tolist())
+        return
+    if not contr:
+        ctx.branch("no contracted index")
+        return
+    inter = captured["inter"]
+    idx = list(captured["index"])
+    iv = np.asarray(U.sync_compute(inter))
+    nout = len(idx) - len(contr)
+    cpos = list(range(nout, len(idx)))
+    cletters = [idx[i] for i in cpos]
+    if sorted(cletters) != contr:
+        ctx.fail("the trailing blockwise indices are not the contracted indices", observed=[idx, contr])
+        return
+    # dask's (unified) chunks of every contracted index = numblocks of the intermediate along that axis
+    css = []
+    for i, ch in zip(cpos, cletters):
+        nb = inter.numblocks[i]
+        if inter.chunks[i] != (1,) * nb:
+            ctx.fail("a contracted axis of the intermediate is not one entry per block", observed=[ch, list(inter.chunks[i])])
+            return
+        # the operand chunks along this letter after dask's alignment: read from any blockwise input
+        lens = None
+        for x, t in zip(xs, terms):
+            if ch in t:
+                lens = x.shape[t.index(ch)]
+        css.append((nb, lens))
+    if not same(iv.sum(axis=tuple(cpos)), val):
+        ctx.fail("the sum of the blockwise intermediate over the contracted axes is not the result", observed=iv.tolist())
+    # block boundaries of the contracted indices: common refinement of the operands' chunkings (dask's unify_chunks)
+    from dask.array.core import unify_chunks
+    args = []
+    for x, t in zip(xs, terms):
+        args += [x, t]
+    chunkss, _ = unify_chunks(*args)
+    cchunks = [list(chunkss[ch]) for ch in cletters]
+    if [len(c) for c in cchunks] != [nb for nb, _ in css]:
+        ctx.disagree("numblocks of the contracted axes vs unify_chunks", [len(c) for c in cchunks], [nb for nb, _ in css])
+        return
+    bounds = [U.block_bounds(c) for c in cchunks]
+    full = np.einsum(ins + "->" + out + "".join(cletters), *ops)       # the products, contracted indices kept
+    for bidx in itertools.product(*[range(len(b)) for b in bounds]):
+        sl = (slice(None),) * nout + tuple(slice(*bounds[j][bi]) for j, bi in enumerate(bidx))
+        part = full[sl].sum(axis=tuple(cpos))
+        got = iv[(slice(None),) * nout + tuple(bidx)]
+        if not same(got, part):
+            ctx.fail("a block of the einsum intermediate is not the partial contraction over that block's index ranges",
+                     observed={"block": list(bidx), "got": got.tolist()}, expected=part.tolist())
+            break
+    if all(o.dtype.kind in "iu" for o in ops):
+        cell = tuple(inp["cell"][i] % n for i, n in enumerate(ref.shape))
+        T = full[cell] if nout else full
+        m = ctx.lean(Sym("blocksumover"), cchunks, [int(v) for v in np.asarray(T).ravel()])
+        ctx.eq("Lean blockSumOver over dask's chunks of the contracted indices vs the dask value of one output cell",
+               m[0], int(val[cell] if nout else val))
+        if m[0] != m[1]:
+            ctx.fail("model: block sum differs from the full contraction (theorem einsum_blocks would be false)", observed=m)
+        ctx.branch("lean-value")
+    ctx.branch(f"contracted indices={len(contr)}")
+    if any(len(c) > 1 for c in cchunks):
+        ctx.branch("contracted index in several blocks")
+
+
 def case_tsqrplan(ctx, inp):
     da = _da()
     chunks = inp["chunks"]
@@ -359,6 +459,7 @@ def case_joint(ctx, inp):
 
 
 CASES = {"joint": case_joint, "tensordot": case_tensordot, "prod": case_prod, "einsum": case_einsum, "contract": case_contract,
+         "einsumblocks": case_einsumblocks,
          "tsqrplan": case_tsqrplan, "qr": case_qr, "svd": case_svd}
 CASES = {k: U.pure_sources(v) for k, v in CASES.items()}
 
@@ -462,6 +563,24 @@ def gen_einsum(ctx, n):
         yield "einsum", {"subscripts": sub, "ops": ops, "chunks": chunks, "split_every": rng.choice([None, None, 2])}
 
 
+def gen_einsumblocks(ctx, n):
+    rng = ctx.rng
+    subs = ["ij,jk->ik", "ij,jk,k->i", "ij,jk,kl->il", "ij,ji->", "i,i->", "ij,ij->", "ijk,jk->i", "ij,kj->ik", "abc,cd->abd",
+            "ij->", "ij,j->i", "i,ij,j->", "ijk,ikl->ijl", "ij,jk"]
+    for _ in range(n):
+        sub = rng.choice(subs)
+        ins = sub.split("->")[0].split(",")
+        dims = {}
+        ops, chunks = [], []
+        dt = rng.choice(["int64", "int64", "int64", "float64", "int32"])
+        for term in ins:
+            shape = [dims.setdefault(ch, rng.randint(1, 4)) for ch in term]
+            ops.append(enc(_rand(rng, shape, dt)))
+        for o in ops:
+            chunks.append([list(c) for c in U.rand_chunks(rng, o["shape"])])
+        yield "einsumblocks", {"subscripts": sub, "ops": ops, "chunks": chunks, "cell": [rng.randint(0, 3) for _ in range(4)]}
+
+
 def gen_contract(ctx, n):
     rng = ctx.rng
     for _ in range(n):
@@ -539,5 +658,6 @@ def generate(ctx):
     yield from gen_tensordot(ctx, ctx.n(200, 2500))
     yield from gen_prod(ctx, ctx.n(200, 2500))
     yield from gen_einsum(ctx, ctx.n(120, 1500))
+    yield from gen_einsumblocks(ctx, ctx.n(100, 1200))
     yield from gen_qr_svd(ctx, ctx.n(90, 900), "qr")
     yield from gen_qr_svd(ctx, ctx.n(90, 900), "svd")
